@@ -11,6 +11,7 @@ From Cooler Require Export Model.Base.
 From Coq Require Strings.String Strings.Ascii.
 Export Coq.Strings.String.StringSyntax.
 Notation string := Coq.Strings.String.string.
+Delimit Scope string_scope with string.
 
 Definition path := list string.          (* absolute group path, split at '/' *)
 Inductive fid := FA | FB.
@@ -183,7 +184,7 @@ Definition add_link (w : world) (f : fid) (p : path) (l : link) (lf : fid)
           match l with
           | Hard _ => if fid_eqb f1 lf then
                         match bind w1 f1 g n l with Some w2 => (Ok, w2) | None => (eexist, w) end
-                      else (EOS, w)
+                      else (EOS, w1)          (* interfile hard link: the intermediate groups stay *)
           | _ => match bind w1 f1 g n l with Some w2 => (Ok, w2) | None => (eexist, w) end
           end
       end
